@@ -147,10 +147,10 @@ def module(repo):
             Fn('prepare', ret='r', head=FACTS,
                ensures=[('C06.prepare', 'res_view(r) == freeform_prepare(%s)' % S0)]),
             Fn('enforce', ret='r', head=FACTS,
-               rewrites=[('A.closure', r'\|s\|\s*(self\.\w+\(s\))', CLOSURE % 'nick_step', 1)],
+               rewrites=[('A.closure', r'\|s\|\s*(self\.\w+\(s\))', CLOSURE % 'nick_step', (0, 1))],
                ensures=[('C06.enforce', 'res_view(r) == nick_enforce(%s)' % S0)]),
             Fn('compare', ret='r', head=FACTS,
-               rewrites=[('A.closure', r'\|s\|\s*(self\.\w+\(s\))', CLOSURE % 'nick_cmp_step', 2)],
+               rewrites=[('A.closure', r'\|s\|\s*(self\.\w+\(s\))', CLOSURE % 'nick_cmp_step', (0, 2))],
                ensures=[('C07.nick_compare', 'r == cmp_spec(nick_canon(as_ref_view(&s1)), nick_canon(as_ref_view(&s2)))')]),
         ]),
         Impl(r'impl\s+Rules\s+for\s+Nickname\b', [
